@@ -26,6 +26,12 @@ def run(ctx: Ctx) -> Result:
         lf = rng.choice(flagsets)                                   # flags the lock permits
         sub = [f for f in flagsets if int(f, 16) & ~int(lf, 16) == 0 and f != 'ff']
         wf = rng.choice(sub)                                        # a permitted witness flag
+        if it % 7 == 3:
+            # the covered message is empty: no sigfield at all, only empty ones, or every present one excluded by the flag
+            k_ = rng.randrange(1, 9)
+            sf, lf, wf = rng.choice([({}, lf, wf), ({f'sigfield{k_}': b''}, lf, wf), ({f'sigfield{k_}': V.rbytes(rng, 5)}, '%02x' % (1 << (k_ - 1)), '%02x' % (1 << (k_ - 1))),
+                                     ({'sigfield2': b'x', 'sigfield8': b'y'}, '82', '82')])
+            sub = [f for f in flagsets if int(f, 16) & ~int(lf, 16) == 0 and f != 'ff']
         bad = [f for f in flagsets if int(f, 16) & ~int(lf, 16)]
         surrogate = T.Script.from_src(rng.choice(['true', 'push d1 push d1 equal', 'pop0 true', 'false', 'push x0102 size push d2 equal']))
         committed = T.Script.from_src(rng.choice(['true', 'push d2 push d2 equal', 'depth push d0 equal']))
